@@ -71,6 +71,14 @@ def run_check(pid, tier, seed, replay=None):
                 if rp and os.path.exists(os.path.join(common.VERIF, rp)) and rp.endswith(".json"):
                     mod.replay(res, json.load(open(os.path.join(common.VERIF, rp))))
                     res.count("corpus-replays")
+                elif rp and rp.endswith(".py") and os.path.exists(os.path.join(common.VERIF, rp)):
+                    # demonstration script of a repaired defect: exit status 1 = the defect is back
+                    rc, out = common.sh(f"/venv/bin/python {os.path.join(common.VERIF, rp)}", timeout=600,
+                                        env=dict(os.environ, VERIF_REPO=os.environ.get("VERIF_REPO", "/repo")))
+                    res.count("corpus-demonstrations")
+                    res.evaluations += 1
+                    if rc != 0:
+                        res.fail("oracle", f"repaired defect is back ({k['tag']}): " + out.strip()[-300:], {"demonstration": rp, "output": out[-1500:]})
             mod.run(res, tier, seed)
     except Exception:
         res.fail("correspondence", "harness crashed: " + traceback.format_exc()[-1500:],
